@@ -162,6 +162,9 @@ def make_jobs(tier):
                          ([T(R, 0), T(W, 1)], True), ([T(W, 0)], True), ([T(W, 0)], False),
                          ([T(R, 1)], True), ([T(R, 1)], False)):
             plan.append(("B", _cfg(ts, main, None, 3), ALPHA_FULL, True))
+        for ts in ([T(W, 2)], [T(R, 1)], [T(W, 1), T(R, 0)]):
+            for main in (False, True):
+                plan.append(("A", dict(_cfg(ts, main, None, 4), late=True), ALPHA_FULL, False))
         for pre in ("main_raises", "main_returns", "leave", "goodbye", "stop"):
             for ts in ([T(W, 2)], [T(R, 1)], [T(W, 1), T(R, 0)], [T(R, 0), T(W, 2)]):
                 for f in (None, "refused"):
